@@ -657,6 +657,7 @@ class FacadeAppleTV(interface.AppleTV):
         self._push_updates = FacadePushUpdater()
         self._features = FacadeFeatures(self._push_updates)
         self._pending_tasks: Optional[set] = None
+        self._closed_protocols: Set[Protocol] = set()
         self._device_info = interface.DeviceInfo({})
         self._interfaces = {
             interface.Features: self._features,
@@ -743,23 +744,35 @@ class FacadeAppleTV(interface.AppleTV):
 
     def close(self) -> Set[asyncio.Task]:
         """Close connection and release allocated resources."""
-        # If close was called before, returning pending tasks
-        if self._pending_tasks is not None:
+        # If close was called before, only protocols not closed yet are closed (below)
+        # and the same pending tasks are returned
+        if self._pending_tasks is None:
+            # Stop all push updaters otherwise they might continue in the background
+            self.push_updater.stop()
+
+            self._pending_tasks = set()
+            self._pending_tasks.add(
+                asyncio.create_task(self._session_manager.close())
+            )
+
+            # Block access to everything in the public interface. This is done before
+            # the protocols are closed: closing a protocol may notify the device
+            # listener, i.e. run user code that can use the public interface or raise
+            # an exception.
+            self._block_everything()
+
+            self._closed_protocols = set(self._protocol_handlers)
+            for setup_data in self._protocol_handlers.values():
+                self._pending_tasks.update(setup_data.close())
             return self._pending_tasks
 
-        # Stop all push updaters otherwise they might continue in the background
-        self.push_updater.stop()
-
-        self._pending_tasks = set()
-        self._pending_tasks.add(asyncio.create_task(self._session_manager.close()))
-
-        # Block access to everything in the public interface. This is done before the
-        # protocols are closed: closing a protocol may notify the device listener, i.e.
-        # run user code that can use the public interface or raise an exception.
-        self._block_everything()
-
-        for setup_data in self._protocol_handlers.values():
-            self._pending_tasks.update(setup_data.close())
+        # A protocol can be connected after close was called the first time: when a
+        # connection is lost while connect() is still in progress, the device listener
+        # closes the facade early. Such protocols are closed by the next call.
+        for protocol, setup_data in list(self._protocol_handlers.items()):
+            if protocol not in self._closed_protocols:
+                self._closed_protocols.add(protocol)
+                self._pending_tasks.update(setup_data.close())
 
         return self._pending_tasks
 
